@@ -4,6 +4,7 @@ import (
 	"context"
 	"crypto/sha256"
 	"encoding/hex"
+	"errors"
 	"fmt"
 	"os"
 	"path/filepath"
@@ -73,10 +74,31 @@ func (g nbGroup) Consume() int64 {
 	return g.ConsumerGroup.Consume()
 }
 
+// faultyPartition: the follower's log append can be made to fail once (fault step!ferr = what ReplicaLog
+// answers when queue.Put fails: (-1, err), nothing stored). Everything else is the real partition.
+type faultyPartition struct{ replica.Partition }
+
+var stepping *world // the world whose replication step is running (faults are armed per step)
+
+func (p faultyPartition) ReplicaLog(idx int64, msg []byte) (int64, error) {
+	if w := stepping; w != nil && w.armed == "ferr" {
+		w.armed, w.fired = "", true
+		return -1, errors.New("injected: follower log append failed")
+	}
+	return p.Partition.ReplicaLog(idx, msg)
+}
+
+func inner(p replica.Partition) replica.Partition {
+	if fp, ok := p.(faultyPartition); ok {
+		return fp.Partition
+	}
+	return p
+}
+
 func installPartitionWrapper() {
 	replica.NewPartitionFn = func(ctx context.Context, shard tsdb.Shard, family tsdb.DataFamily, cur models.NodeID,
 		log queue.FanOutQueue, cliFct rpc.ClientStreamFactory, stateMgr storage.StateManager) replica.Partition {
-		return replica.VerifNoLoop(replica.NewPartition(ctx, shard, quietFamily{family}, cur, nbLog{log}, cliFct, stateMgr))
+		return faultyPartition{replica.VerifNoLoop(replica.NewPartition(ctx, shard, quietFamily{family}, cur, nbLog{log}, cliFct, stateMgr))}
 	}
 }
 
@@ -214,7 +236,7 @@ func (w *world) startLeader() error {
 	if err := p.BuildReplicaForLeader(leaderID, []models.NodeID{followerID}); err != nil {
 		return fmt.Errorf("leader build replica: %v", err)
 	}
-	w.lpart = p
+	w.lpart = inner(p)
 	return nil
 }
 
@@ -287,7 +309,7 @@ func (w *world) followerPartition() replica.Partition {
 	if err != nil {
 		return nil
 	}
-	return p
+	return inner(p)
 }
 
 // ---------------------------------------------------------------------------------------------
@@ -347,6 +369,8 @@ func (w *world) Enabled() []string {
 	return evs
 }
 
+var stepFaultName = map[string]string{"send": "sendFail", "recv": "recvFail", "hs": "handshakeRpcFail", "reset": "resetAnswerLost", "ferr": "followerAppendErr"}
+
 func payload(b byte, epoch int, seq int64) []byte {
 	head := []byte{b, byte('0' + epoch), byte('0' + seq)}
 	if b == 'x' {
@@ -369,6 +393,7 @@ func decode(p []byte) (b byte, epoch int, seq int64, ok bool) {
 
 func (w *world) runStep(arm string) {
 	w.armed, w.fired = arm, false
+	stepping = w
 	done := make(chan stepResult, 1)
 	select {
 	case <-w.parkSig:
@@ -476,7 +501,7 @@ func (w *world) Apply(ev string) (err error) {
 		b := w.budget
 		w.runStep(ev[5:])
 		if w.budget < b {
-			w.faults[ev[5:]+"Fail"] = true
+			w.faults[stepFaultName[ev[5:]]] = true
 		}
 	case ev == "L.gc":
 		if w.lpart.IsExpire() {
@@ -618,14 +643,16 @@ func (w *world) observe() *obs {
 
 // lite: what the transition clauses need from the state before the event (cheap: computed on every replayed event)
 type lite struct {
-	LApp, FApp       int64
-	RAck, RConsumed  int64
-	RState           models.ReplicatorState
+	LApp, FApp      int64
+	LQAck           int64
+	RAck, RConsumed int64
+	RState          models.ReplicatorState
 }
 
 func (w *world) observeLite() *lite {
 	l := &lite{FApp: -1}
 	l.LApp = replica.VerifLog(w.lpart).Queue().AppendedSeq()
+	l.LQAck = replica.VerifLog(w.lpart).Queue().AcknowledgedSeq()
 	if fp := w.followerPartition(); fp != nil {
 		l.FApp = replica.VerifLog(fp).Queue().AppendedSeq()
 	}
@@ -639,7 +666,7 @@ func (l *lite) String() string {
 }
 
 func (o *obs) lite() *lite {
-	return &lite{LApp: o.L.App, FApp: o.F.App, RAck: o.R.Ack, RConsumed: o.R.Consumed, RState: o.R.State}
+	return &lite{LApp: o.L.App, LQAck: o.L.Ack, FApp: o.F.App, RAck: o.R.Ack, RConsumed: o.R.Consumed, RState: o.R.State}
 }
 
 func (o *obs) String() string {
